@@ -12,6 +12,13 @@ package composer
 
 //@ func (*Version).Compare
 //@   comparator v ~ other                                 [C01]
+// numbers first (major, minor, patch, fourth component), then the stability rank (dev < alpha < beta < RC < stable), then its number (C03)
+//@   ensures major: !v.isDev && !other.isDev && v.major != other.major ==> result == (v.major < other.major ? -1 : 1)   [C03]
+//@   ensures minor: !v.isDev && !other.isDev && v.major == other.major && v.minor != other.minor ==> result == (v.minor < other.minor ? -1 : 1)   [C03]
+//@   ensures patch: !v.isDev && !other.isDev && v.major == other.major && v.minor == other.minor && v.patch != other.patch ==> result == (v.patch < other.patch ? -1 : 1)   [C03]
+//@   ensures extra: !v.isDev && !other.isDev && v.major == other.major && v.minor == other.minor && v.patch == other.patch && v.extra != other.extra ==> result == (v.extra < other.extra ? -1 : 1)   [C03]
+//@   ensures stability: !v.isDev && !other.isDev && v.major == other.major && v.minor == other.minor && v.patch == other.patch && v.extra == other.extra && v.stability != other.stability ==> result == (v.stability < other.stability ? -1 : 1)   [C03]
+//@   ensures stability-number: !v.isDev && !other.isDev && v.major == other.major && v.minor == other.minor && v.patch == other.patch && v.extra == other.extra && v.stability == other.stability ==> result == (v.stabilityNum < other.stabilityNum ? -1 : (v.stabilityNum > other.stabilityNum ? 1 : 0))   [C03]
 
 // ---- constructors: value xor error (C06); the fact is structural (untagged) because callers rely on it
 
@@ -80,3 +87,28 @@ package composer
 //@   ensures zero-x: c.version != nil && c.version.minor < 9223372036854775807 ==> result == (version.major == 0 && version.minor == c.version.minor && ((version.patch == c.version.patch && version.extra >= c.version.extra) || version.Compare(c.version) >= 0))   [C05]
 //@ func (*constraint).matchesCaretZeroZeroX
 //@   ensures zero-zero-x: c.version != nil ==> result == (version.major == 0 && version.minor == 0 && version.patch == c.version.patch && (version.extra >= c.version.extra || version.Compare(c.version) >= 0))   [C05]
+
+// ---- range text to OR groups (C02): every "||"-separated part becomes one group, in order
+//@ func parseRangeGroups
+//@   loop 1 invariant len(constraintGroups) == rangeindex + 1 && (forall g int :: 0 <= g && g <= rangeindex ==> constraintGroups[g] == parseRange(strings.TrimSpace(parts[g])).0)
+//@   ensures or-groups: strings.Contains(rangeStr, "||") && result1 == nil ==> len(result0) == len(strings.Split(rangeStr, "||")) && (forall g int :: 0 <= g && g < len(result0) ==> result0[g] == parseRange(strings.TrimSpace(strings.Split(rangeStr, "||")[g])).0)   [C02]
+//@   ensures single-group: !strings.Contains(rangeStr, "||") && result1 == nil ==> len(result0) == 1 && result0[0] == parseRange(rangeStr).0   [C02]
+
+// a single composer constraint: operator directly before a valid version ("==" and "<>" are aliases of "=" and "!=")
+//@ func normalizeOperator
+//@   ensures result == (op == "==" ? "=" : (op == "<>" ? "!=" : op))   [C02]
+//@ func parseSingleConstraint
+//@   ensures op>=: strings.TrimSpace(c) != "*" && !strings.HasPrefix(strings.TrimSpace(c), "^") && !strings.HasPrefix(strings.TrimSpace(c), "~") && !strings.Contains(strings.TrimSpace(c), "*") && !strings.Contains(strings.TrimSpace(c), "x") && strings.HasPrefix(strings.TrimSpace(c), ">=") && !strings.Contains(strings.TrimSpace(strings.TrimSpace(c)[2:]), "@") && result1 == nil ==> len(result0) == 1 && result0[0] != nil && result0[0].operator == ">=" && result0[0].version == theEcosystem().NewVersion(strings.TrimSpace(strings.TrimSpace(c)[2:])).0   [C02]
+//@   ensures accepts>=: strings.TrimSpace(c) != "*" && !strings.HasPrefix(strings.TrimSpace(c), "^") && !strings.HasPrefix(strings.TrimSpace(c), "~") && !strings.Contains(strings.TrimSpace(c), "*") && !strings.Contains(strings.TrimSpace(c), "x") && strings.HasPrefix(strings.TrimSpace(c), ">=") && !strings.Contains(strings.TrimSpace(strings.TrimSpace(c)[2:]), "@") && theEcosystem().NewVersion(strings.TrimSpace(strings.TrimSpace(c)[2:])).1 == nil ==> result1 == nil   [C02]
+//@   ensures op<=: strings.TrimSpace(c) != "*" && !strings.HasPrefix(strings.TrimSpace(c), "^") && !strings.HasPrefix(strings.TrimSpace(c), "~") && !strings.Contains(strings.TrimSpace(c), "*") && !strings.Contains(strings.TrimSpace(c), "x") && strings.HasPrefix(strings.TrimSpace(c), "<=") && !strings.Contains(strings.TrimSpace(strings.TrimSpace(c)[2:]), "@") && result1 == nil ==> len(result0) == 1 && result0[0] != nil && result0[0].operator == "<=" && result0[0].version == theEcosystem().NewVersion(strings.TrimSpace(strings.TrimSpace(c)[2:])).0   [C02]
+//@   ensures accepts<=: strings.TrimSpace(c) != "*" && !strings.HasPrefix(strings.TrimSpace(c), "^") && !strings.HasPrefix(strings.TrimSpace(c), "~") && !strings.Contains(strings.TrimSpace(c), "*") && !strings.Contains(strings.TrimSpace(c), "x") && strings.HasPrefix(strings.TrimSpace(c), "<=") && !strings.Contains(strings.TrimSpace(strings.TrimSpace(c)[2:]), "@") && theEcosystem().NewVersion(strings.TrimSpace(strings.TrimSpace(c)[2:])).1 == nil ==> result1 == nil   [C02]
+//@   ensures op!=: strings.TrimSpace(c) != "*" && !strings.HasPrefix(strings.TrimSpace(c), "^") && !strings.HasPrefix(strings.TrimSpace(c), "~") && !strings.Contains(strings.TrimSpace(c), "*") && !strings.Contains(strings.TrimSpace(c), "x") && strings.HasPrefix(strings.TrimSpace(c), "!=") && !strings.Contains(strings.TrimSpace(strings.TrimSpace(c)[2:]), "@") && result1 == nil ==> len(result0) == 1 && result0[0] != nil && result0[0].operator == "!=" && result0[0].version == theEcosystem().NewVersion(strings.TrimSpace(strings.TrimSpace(c)[2:])).0   [C02]
+//@   ensures accepts!=: strings.TrimSpace(c) != "*" && !strings.HasPrefix(strings.TrimSpace(c), "^") && !strings.HasPrefix(strings.TrimSpace(c), "~") && !strings.Contains(strings.TrimSpace(c), "*") && !strings.Contains(strings.TrimSpace(c), "x") && strings.HasPrefix(strings.TrimSpace(c), "!=") && !strings.Contains(strings.TrimSpace(strings.TrimSpace(c)[2:]), "@") && theEcosystem().NewVersion(strings.TrimSpace(strings.TrimSpace(c)[2:])).1 == nil ==> result1 == nil   [C02]
+//@   ensures op<>: strings.TrimSpace(c) != "*" && !strings.HasPrefix(strings.TrimSpace(c), "^") && !strings.HasPrefix(strings.TrimSpace(c), "~") && !strings.Contains(strings.TrimSpace(c), "*") && !strings.Contains(strings.TrimSpace(c), "x") && strings.HasPrefix(strings.TrimSpace(c), "<>") && !strings.Contains(strings.TrimSpace(strings.TrimSpace(c)[2:]), "@") && result1 == nil ==> len(result0) == 1 && result0[0] != nil && result0[0].operator == "!=" && result0[0].version == theEcosystem().NewVersion(strings.TrimSpace(strings.TrimSpace(c)[2:])).0   [C02]
+//@   ensures accepts<>: strings.TrimSpace(c) != "*" && !strings.HasPrefix(strings.TrimSpace(c), "^") && !strings.HasPrefix(strings.TrimSpace(c), "~") && !strings.Contains(strings.TrimSpace(c), "*") && !strings.Contains(strings.TrimSpace(c), "x") && strings.HasPrefix(strings.TrimSpace(c), "<>") && !strings.Contains(strings.TrimSpace(strings.TrimSpace(c)[2:]), "@") && theEcosystem().NewVersion(strings.TrimSpace(strings.TrimSpace(c)[2:])).1 == nil ==> result1 == nil   [C02]
+//@   ensures op>: strings.TrimSpace(c) != "*" && !strings.HasPrefix(strings.TrimSpace(c), "^") && !strings.HasPrefix(strings.TrimSpace(c), "~") && !strings.Contains(strings.TrimSpace(c), "*") && !strings.Contains(strings.TrimSpace(c), "x") && strings.HasPrefix(strings.TrimSpace(c), ">") && !strings.HasPrefix(strings.TrimSpace(c), ">=") && !strings.Contains(strings.TrimSpace(strings.TrimSpace(c)[1:]), "@") && result1 == nil ==> len(result0) == 1 && result0[0] != nil && result0[0].operator == ">" && result0[0].version == theEcosystem().NewVersion(strings.TrimSpace(strings.TrimSpace(c)[1:])).0   [C02]
+//@   ensures accepts>: strings.TrimSpace(c) != "*" && !strings.HasPrefix(strings.TrimSpace(c), "^") && !strings.HasPrefix(strings.TrimSpace(c), "~") && !strings.Contains(strings.TrimSpace(c), "*") && !strings.Contains(strings.TrimSpace(c), "x") && strings.HasPrefix(strings.TrimSpace(c), ">") && !strings.HasPrefix(strings.TrimSpace(c), ">=") && !strings.Contains(strings.TrimSpace(strings.TrimSpace(c)[1:]), "@") && theEcosystem().NewVersion(strings.TrimSpace(strings.TrimSpace(c)[1:])).1 == nil ==> result1 == nil   [C02]
+//@   ensures op<: strings.TrimSpace(c) != "*" && !strings.HasPrefix(strings.TrimSpace(c), "^") && !strings.HasPrefix(strings.TrimSpace(c), "~") && !strings.Contains(strings.TrimSpace(c), "*") && !strings.Contains(strings.TrimSpace(c), "x") && strings.HasPrefix(strings.TrimSpace(c), "<") && !strings.HasPrefix(strings.TrimSpace(c), "<=") && !strings.HasPrefix(strings.TrimSpace(c), "<>") && !strings.Contains(strings.TrimSpace(strings.TrimSpace(c)[1:]), "@") && result1 == nil ==> len(result0) == 1 && result0[0] != nil && result0[0].operator == "<" && result0[0].version == theEcosystem().NewVersion(strings.TrimSpace(strings.TrimSpace(c)[1:])).0   [C02]
+//@   ensures accepts<: strings.TrimSpace(c) != "*" && !strings.HasPrefix(strings.TrimSpace(c), "^") && !strings.HasPrefix(strings.TrimSpace(c), "~") && !strings.Contains(strings.TrimSpace(c), "*") && !strings.Contains(strings.TrimSpace(c), "x") && strings.HasPrefix(strings.TrimSpace(c), "<") && !strings.HasPrefix(strings.TrimSpace(c), "<=") && !strings.HasPrefix(strings.TrimSpace(c), "<>") && !strings.Contains(strings.TrimSpace(strings.TrimSpace(c)[1:]), "@") && theEcosystem().NewVersion(strings.TrimSpace(strings.TrimSpace(c)[1:])).1 == nil ==> result1 == nil   [C02]
+//@   ensures op=: strings.TrimSpace(c) != "*" && !strings.HasPrefix(strings.TrimSpace(c), "^") && !strings.HasPrefix(strings.TrimSpace(c), "~") && !strings.Contains(strings.TrimSpace(c), "*") && !strings.Contains(strings.TrimSpace(c), "x") && strings.HasPrefix(strings.TrimSpace(c), "=") && !strings.Contains(strings.TrimSpace(strings.TrimSpace(c)[1:]), "@") && result1 == nil ==> len(result0) == 1 && result0[0] != nil && result0[0].operator == "=" && result0[0].version == theEcosystem().NewVersion(strings.TrimSpace(strings.TrimSpace(c)[1:])).0   [C02]
+//@   ensures accepts=: strings.TrimSpace(c) != "*" && !strings.HasPrefix(strings.TrimSpace(c), "^") && !strings.HasPrefix(strings.TrimSpace(c), "~") && !strings.Contains(strings.TrimSpace(c), "*") && !strings.Contains(strings.TrimSpace(c), "x") && strings.HasPrefix(strings.TrimSpace(c), "=") && !strings.Contains(strings.TrimSpace(strings.TrimSpace(c)[1:]), "@") && theEcosystem().NewVersion(strings.TrimSpace(strings.TrimSpace(c)[1:])).1 == nil ==> result1 == nil   [C02]
